@@ -25,6 +25,7 @@ import (
 	"sort"
 	"strings"
 	"testing"
+	"time"
 
 	"github.com/glyphlang/glyph/internal/verif/vk"
 	"github.com/glyphlang/glyph/pkg/ast"
@@ -32,7 +33,8 @@ import (
 )
 
 type c3Replay struct {
-	Part      string `json:"part"` // single | history | mapping
+	Part      string `json:"part"`          // single | history | history-ctx | mapping
+	Ctx       string `json:"ctx,omitempty"` // history-ctx: the sequence of compilation units
 	Prog      c3Prog `json:"prog"`
 	Modes     string `json:"modes"`
 	Prev      c3Prog `json:"prev,omitempty"` // history: the program compiled first
@@ -48,10 +50,12 @@ type c3Checker struct {
 	res          *vk.Result
 	p            vk.Params
 	levels       []OptimizationLevel
-	kinds        map[string][]string // (prog|modes|level) -> sorted failing kinds
-	shrunk       map[string]c3Cand   // pre-key -> shrunk case
-	keyOf        map[string]string   // shrunk pre-key -> final key (reported already)
-	vm           *vm.VM              // reused (VM.Reset) for the bulk runs; failures are confirmed on fresh VMs
+	kinds        map[string][]string    // (prog|modes|level) -> sorted failing kinds
+	shrunk       map[string]c3Cand      // pre-key -> shrunk case
+	keyOf        map[string]string      // shrunk pre-key -> final key (reported already)
+	vm           *vm.VM                 // reused (VM.Reset) for the bulk runs; failures are confirmed on fresh VMs
+	ctxAlone     map[string]*c3CtxAlone // (context|prog|modes|level) -> the body compiled on its own
+	ctxDone      map[string]bool
 	nUnconfirmed int64
 	nPrograms    int64
 	nDisagree    int64
@@ -983,7 +987,8 @@ func TestVerif_C03(t *testing.T) {
 	p := vk.Env()
 	res := vk.NewResult("every program of three bounded grammars (expression family: one expression of depth<=2 (thorough 3) in 6 statement templates; flow family: every statement list of length<=3 over the full statement alphabet and of length 4 (thorough: 4 and 5) over the small one; history family: every ordered pair of lists of length<=2 compiled by one Compiler) x AST encodings {val, ptr, ptr-stmt/val-expr, val-stmt/ptr-expr, ptr-top/val-nested, only-i-ptr, only-i-val} x levels {OptNone, OptBasic, OptAggressive}; a case is non-trivial when some compilation's bytecode differs from the value-form unoptimised bytecode; those are executed for every assignment of {0,1,2,1.5,\"a\",true,false,null,[1]} to the free variables")
 	ck := &c3Checker{res: res, p: p, levels: []OptimizationLevel{OptNone, OptBasic, OptAggressive},
-		kinds: map[string][]string{}, shrunk: map[string]c3Cand{}, keyOf: map[string]string{}, vm: vm.NewVM()}
+		kinds: map[string][]string{}, shrunk: map[string]c3Cand{}, keyOf: map[string]string{}, vm: vm.NewVM(),
+		ctxAlone: map[string]*c3CtxAlone{}, ctxDone: map[string]bool{}}
 
 	if p.Replay != "" {
 		if dir := os.Getenv("C03_REPLAY_DIR"); dir != "" {
@@ -1010,6 +1015,12 @@ func TestVerif_C03(t *testing.T) {
 		case "history":
 			ck.vm = nil
 			if ck.histFails(rp.Prev, rp.PrevModes, rp.Prog, rp.Modes, OptimizationLevel(rp.Level), rp.Kind) {
+				ok = true
+				res.Violate(rp.Key, "reproduced: "+rp.Text, rp)
+			}
+		case "history-ctx":
+			ck.vm = nil
+			if ctx, known := c3CtxByName(rp.Ctx); known && ck.ctxHistFails(ctx, rp.Prev, rp.PrevModes, rp.Prog, rp.Modes, OptimizationLevel(rp.Level), rp.Kind) {
 				ok = true
 				res.Violate(rp.Key, "reproduced: "+rp.Text, rp)
 			}
@@ -1045,6 +1056,18 @@ func TestVerif_C03(t *testing.T) {
 			key := fmt.Sprintf("level-mapping/undriven-level/%d", int(l))
 			res.Violate(key, "a level reachable from the CLI/JIT/server is not driven by this check", c3Replay{Part: "mapping", Key: key})
 		}
+	}
+
+	// development aid: C03_TIMING=<file> appends the wall time of every family of this shard
+	lap := time.Now()
+	timing := func(label string) {
+		if f := os.Getenv("C03_TIMING"); f != "" {
+			if fh, err := os.OpenFile(f, os.O_APPEND|os.O_CREATE|os.O_WRONLY, 0o644); err == nil {
+				fmt.Fprintf(fh, "%s\t%s\t%.2f\t%d\t%d\n", os.Getenv("VERIF_SHARD"), label, time.Since(lap).Seconds(), ck.nEvals, ck.nPrograms)
+				fh.Close()
+			}
+		}
+		lap = time.Now()
 	}
 
 	idx := 0
@@ -1084,6 +1107,8 @@ func TestVerif_C03(t *testing.T) {
 	exprFamily(pool)
 	exprPrograms := idx
 
+	timing("expr")
+
 	// family 2: statement lists
 	full := c3FlowAlphabet(true)
 	small := c3FlowAlphabet(false)
@@ -1118,6 +1143,8 @@ func TestVerif_C03(t *testing.T) {
 		})
 	}
 	flowPrograms := idx - exprPrograms
+
+	timing("flow")
 
 	// family 3: ordered pairs compiled by one compiler
 	var corpus []c3Prog
@@ -1161,6 +1188,103 @@ func TestVerif_C03(t *testing.T) {
 		}
 	}
 
+	timing("history")
+
+	// family 4: operand order
+	opPool := c3OperandOrderPool()
+	res.Bounds["operand_order_pool"] = len(opPool)
+	res.Bounds["operand_order_programs"] = len(opPool) * len(opPool)
+	if !stopped {
+	opLoop:
+		for _, e1 := range opPool {
+			for _, e2 := range opPool {
+				if mine(idx) {
+					ck.checkProgram(c3OperandOrderProgram(e1, e2), "operand-order", c3FlowEncodings(3, false))
+				}
+				idx++
+				if stopped {
+					break opLoop
+				}
+			}
+		}
+	}
+
+	timing("operand-order")
+
+	// family 5: branches
+	blocks := c3BranchBlocks()
+	elses := append([][]*c3S{nil}, blocks...)
+	prefixes := c3BranchPrefixes()
+	res.Bounds["branch_blocks"] = len(blocks)
+	res.Bounds["branch_programs"] = len(prefixes) * len(blocks) * len(elses)
+	if !stopped {
+	brLoop:
+		for _, pre := range prefixes {
+			for _, th := range blocks {
+				for _, el := range elses {
+					if mine(idx) {
+						pr := c3BranchProgram(pre, th, el)
+						ck.checkProgram(pr, "branches", c3BranchEncodings(len(pr)))
+					}
+					idx++
+					if stopped {
+						break brLoop
+					}
+				}
+			}
+		}
+	}
+
+	timing("branches")
+
+	// family 6: ordered pairs compiled by one compiler as other kinds of unit
+	var singles []c3Prog
+	for _, c := range corpus {
+		if len(c) == 1 {
+			singles = append(singles, c)
+		}
+	}
+	var ctxPairs, ctxInfluenced int64
+	ctxNames := []string{}
+	ctxFamily := func(ctxs []c3Ctx, corpus []c3Prog) {
+		for _, ctx := range ctxs {
+			ctxNames = append(ctxNames, fmt.Sprintf("%s (%d pairs)", ctx.Name, len(corpus)*len(corpus)))
+			for _, a := range corpus {
+				for _, b := range corpus {
+					if stopped {
+						return
+					}
+					if mine(idx) {
+						ctxPairs++
+						any := false
+						for _, m := range histModes {
+							am, bm := strings.Repeat(string(m), len(a)), strings.Repeat(string(m), len(b))
+							for _, level := range ck.levels {
+								kinds, v, infl := ck.ctxHistKinds(ctx, a, am, b, bm, level)
+								if infl {
+									any = true
+									ck.nDisagree++
+								}
+								ck.nEvals += int64(v.Runs)
+								for _, kind := range kinds {
+									ck.reportCtxHistory(ctx, a, am, b, bm, level, kind)
+								}
+							}
+						}
+						if any {
+							ctxInfluenced++
+						}
+					}
+					idx++
+				}
+			}
+		}
+	}
+	ctxFamily(c3FullCorpusContexts(), corpus)
+	ctxFamily(c3SmallCorpusContexts(), singles)
+	res.Bounds["unit_sequences"] = ctxNames
+	timing("unit-sequences")
+
 	// family 1, thorough layer: expressions of depth 3
 	deep := 0
 	if p.Thorough && !stopped {
@@ -1173,8 +1297,10 @@ func TestVerif_C03(t *testing.T) {
 	exprPrograms += deep
 
 	res.Evaluations = ck.nEvals
-	res.Distinct = ck.nDistinct + influenced
-	res.Count("programs", ck.nPrograms+pairs)
+	res.Distinct = ck.nDistinct + influenced + ctxInfluenced
+	res.Count("programs", ck.nPrograms+pairs+ctxPairs)
+	res.Count("unit_sequence_pairs", ctxPairs)
+	res.Count("unit_sequence_pairs_where_history_changed_the_bytecode", ctxInfluenced)
 	res.Count("disagreements_checked", ck.nDisagree)
 	res.Count("single_programs", ck.nPrograms)
 	res.Count("history_pairs", pairs)
@@ -1186,6 +1312,7 @@ func TestVerif_C03(t *testing.T) {
 	res.Bounds["flow_programs"] = flowPrograms
 	res.Bounds["history_pairs"] = len(corpus) * len(corpus)
 	res.Bounds["free_variable_values"] = c3ValueSpellings
+	res.Bounds["free_variable_values_q"] = c3ValueSpellingsQ
 	res.Bounds["levels"] = []string{"OptNone", "OptBasic", "OptAggressive"}
 	res.Write(p)
 }
